@@ -655,10 +655,32 @@ def run_twice(case, ctx):
     if case["pre_sync"]:
         sync_point("before the first step")
         ctx.cls("pre_first_step")
+    # Adaptive integrators (IAS15, esp. the legacy adaptive_mode 0 on noise-only acceleration components; BS) can
+    # collapse their step so that integrate() to a fixed time effectively never returns.  Both twins count their
+    # steps in a heartbeat (which touches nothing) and stop beyond a generous budget; such a case is skipped.
+    adaptive = fam in ("ias15", "bs", "trace")
+    counts = {"P": 0, "Q": 0}
+    budget = [0]
+
+    def counter(sim, key):
+        def hb(simp):
+            counts[key] += 1
+            if counts[key] > budget[0]:
+                sim.stop()
+        return hb
+
+    if adaptive and case["how"] == "integrate":
+        P.heartbeat = counter(P, "P")
+        Q.heartbeat = counter(Q, "Q")
     for k, n in enumerate((case["n1"], case["n2"], case["n3"])):
         if n:
+            counts["P"] = counts["Q"] = 0
+            budget[0] = 200 * n + 50
             advance(P, case["how"], n)
             advance(Q, case["how"], n)
+            if counts["P"] > budget[0] or counts["Q"] > budget[0]:
+                ctx.skip("adaptive step collapse: integrate() exceeded 200x its step budget (documented for IAS15 adaptive_mode 0)")
+                return
         sync_point("after segment %d" % k)
     if rb.pstate(P) != rb.pstate(Q) or rb.dbits(P.t) != rb.dbits(Q.t):
         raise Violation("%s: trajectories diverge after double synchronisation" % fam)
